@@ -1,11 +1,2 @@
-(* GENERATED by rs2v admission from mls-rs/src/group/message_processor.rs. Do not edit. *)
-From Coq Require Import NArith Bool.
-From MlsV Require Import Admission.
-Local Open Scope N_scope.
-
-Definition ct_is (a b : ctype) : bool :=
-  match a, b with CtApplication, CtApplication | CtProposal, CtProposal | CtCommit, CtCommit => true | _, _ => false end.
-
-(* check_metadata for a message that carries a header (PublicMessage or PrivateMessage) *)
-Definition gen_check_metadata (v : aview) (gid epoch : N) (ct : ctype) (cipher : bool) : averdict :=
-  (if negb (av_version_ok v) then AVersionMismatch else (if negb ((gid =? av_gid v)) then AGroupIdMismatch else (match ct with | CtCommit => (if negb ((av_epoch v =? epoch)) then AInvalidEpoch else (if ((ct_is ct CtCommit || ct_is ct CtProposal) && negb ((epoch =? av_epoch v))) then AInvalidEpoch else (if (negb (cipher) && ct_is ct CtApplication) then AUnencryptedApplication else AOk))) | CtProposal => (if negb ((av_epoch v =? epoch)) then AInvalidEpoch else (if ((ct_is ct CtCommit || ct_is ct CtProposal) && negb ((epoch =? av_epoch v))) then AInvalidEpoch else (if (negb (cipher) && ct_is ct CtApplication) then AUnencryptedApplication else AOk))) | CtApplication => (match av_min v with Some min => (if (epoch <? min) then AInvalidEpoch else (if ((ct_is ct CtCommit || ct_is ct CtProposal) && negb ((epoch =? av_epoch v))) then AInvalidEpoch else (if (negb (cipher) && ct_is ct CtApplication) then AUnencryptedApplication else AOk))) | None => (if ((ct_is ct CtCommit || ct_is ct CtProposal) && negb ((epoch =? av_epoch v))) then AInvalidEpoch else (if (negb (cipher) && ct_is ct CtApplication) then AUnencryptedApplication else AOk)) end) end))).
+(* rs2v admission could not translate the current source *)
+Translation_failed.
